@@ -11,7 +11,7 @@ class SimSpec(vlib.Spec):
     """shared by C36 (and reused by C37/C38 for the correspondence part)"""
     model_vo = ["theories/Sim/Run.vo"]
     crate, group, binary = "h_sim", "hydro", "h_sim"
-    imports = "From HV Require Import Sim.Model Sim.Run."
+    imports = "From Coq Require Import List NArith.\nFrom HV Require Import Sim.Model Sim.Run.\nImport ListNotations."
     harness_shards = 4
     prop_id = "C36"
 
@@ -165,8 +165,8 @@ class C36(SimSpec):
     props_vo = "theories/Props/C36.vo"
     theorems = ["C36_total_prefix", "C36_noorder_subsequence", "C36_keyed_total_per_key",
                 "C36_keyed_noorder_per_key", "C36_single_monotone", "C36_single_versions",
-                "C36_pass_latest", "C36_ksingle_per_key", "C36_forced_nontrivial",
-                "C36_run_hooks_releases_new", "C36_run_hooks_sound", "C36_can_run_iff"]
+                "C36_pass_latest", "C36_ksingle_per_key", "C36_run_hooks_releases_new",
+                "C36_can_run_iff"]
     trusted_base = ["coqc 8.16.1 kernel (vm_compute used for case evaluation only)",
                     "hand-written Gallina model coq/theories/Sim/Model.v of sim/runtime.rs hooks and compiled.rs run_hooks",
                     "correspondence harness harness/h_sim (scripted bolero DynDriver) + tools/sim.py",
